@@ -22,13 +22,13 @@ LEVEL = 'model_checking'
 RULE = ('E3: array basis, 3-4 triplets of S2, (max_iter, output_iter, batch_size) in {(2,1,2), (3,1,2), (3,3,1), (4,2,1)}: all n^(max_iter x '
         'batch_size) draw programs; E4: SCML x basis {triplet_diffs, array} and SCML_Supervised x basis {triplet_diffs, lda, array} x '
         '(beta, gamma) in {(1e-5, 5e-3), (1e-2, 5e-3), (1e-3, 5e-2)} x (max_iter, output_iter, batch_size) in {(50,10,3), (200,50,10), '
-        '(1000,100,10), (120,120,4)} x seeds {0,1,2} x datasets, each also as a second fit; state = one execution; '
+        '(1000,100,10), (120,120,4), (130,40,3)} x seeds {0,1,2} x datasets, each also as a second fit; state = one execution; '
         'non-trivial = at least one positive weight')
 ASSUMPTIONS = ['Replay in mc/refmodel/scml_replay.py (plain loops over the documented update); an execution whose smallest hinge margin '
                '|1 + dd.w| is below 1e-9 or whose two best checkpoint objectives are closer than 1e-12 is counted ambiguous.',
                'Draws for integer seeds are reproduced with numpy.random.RandomState(seed).randint (the documented source of randomness).']
 BG = [(1e-5, 5e-3), (1e-2, 5e-3), (1e-3, 5e-2)]
-SCHED = [(50, 10, 3), (200, 50, 10), (1000, 100, 10), (120, 120, 4)]
+SCHED = [(50, 10, 3), (200, 50, 10), (1000, 100, 10), (120, 120, 4), (130, 40, 3)]     # last: max_iter not a multiple of output_iter
 
 
 def V(site, clause, msg, triggers=(), **detail):
@@ -41,6 +41,7 @@ def cases(tier, seed):
         for sch in ((2, 1, 2), (3, 1, 2), (3, 3, 1), (4, 2, 1)) if tier == 'quick' else ((2, 1, 2), (3, 1, 2), (3, 3, 1), (4, 2, 1), (3, 1, 2), (5, 5, 1)):
             out.append(('e3/nt=%d/%s' % (nt, 'x'.join(map(str, sch))), ('e3', nt, sch)))
     out.append(('SCML/int_points/array', ('intpts', seed)))
+    out.append(('SCML/n_triplets_equals_n_features', ('minimal', seed)))
     for dsn in (['S3u', 'S5'] if tier == 'quick' else data.THOROUGH):
         out.append(('generated_bases/%s' % dsn, ('genbasis', dsn, seed)))
     for dsn in (['S2', 'S3u', 'S5'] if tier == 'quick' else data.THOROUGH):
@@ -150,6 +151,37 @@ def run_case(spec):
                     stats={'e3_complete_trees': int(st['complete']), 'e3_distinct_weight_outcomes': len(outcomes)},
                     sample={'kind': 'all draw programs', 'triplets': nt, 'max_iter': mi, 'output_iter': oi, 'batch_size': bs,
                             'programs': evals, 'distinct_weight_outcomes': len(outcomes)})
+    if spec[0] == 'minimal':
+        # exactly as many triplets as features (the smallest admissible triplet set), for every basis option that applies
+        for dsn in ('S2', 'S3u', 'S5'):
+            ds = data.dataset(dsn)
+            d = ds.d
+            T = ds.trip[:d].copy()
+            for seed in (0, 1):
+                for basis_opt in ('triplet_diffs', 'array'):
+                    bval = np.vstack([np.eye(d), np.ones((1, d)) / np.sqrt(d)]) if basis_opt == 'array' else basis_opt
+                    kw = dict(basis=bval, beta=1e-3, gamma=5e-2, max_iter=40, output_iter=10, batch_size=2, random_state=seed)
+                    if basis_opt == 'triplet_diffs':
+                        kw['n_basis'] = 2 * d
+                    est = ml.SCML(**kw)
+                    with Spy() as spy, warnings.catch_warnings(record=True) as wr:
+                        warnings.simplefilter('always')
+                        try:
+                            est.fit(T.copy())
+                        except Exception as e:
+                            viol.append(V('SCML.fit', 'raises', '%d triplets with %d features (admissible: n_triplets >= n_features), basis=%s: fit raised '
+                                          '%s: %s' % (len(T), d, basis_opt, type(e).__name__, str(e)[:100]), [basis_opt, 'n_triplets==n_features']))
+                            continue
+                    basis, w = spy.calls[-1]
+                    draws = np.random.RandomState(seed).randint(0, len(T), size=(40, 2))
+                    a, nt = judge('SCML.fit', est, basis, w, T, draws, 1e-3, 5e-2, 10, 2, ['n_triplets==n_features', basis_opt], viol, wr, d)
+                    amb += int(a)
+                    evals += 1
+                    states += 1
+                    trans += 1
+                    sigs.add(('minimal', dsn, basis_opt, seed, int((np.asarray(w) > 0).sum())))
+        return dict(evals=evals, sigs=sigs, viol=viol, states=states, transitions=trans, ambiguous=amb,
+                    sample={'kind': 'n_triplets == n_features', 'datasets': ['S2', 'S3u', 'S5']})
     if spec[0] == 'genbasis':
         # generated bases have n_basis unit-norm rows, for a sweep of n_basis values and seeds
         _, dsn, seed0 = spec
